@@ -127,9 +127,10 @@ def _alts(name, default, base_value):
     if isinstance(b, bool):
         return [not b]
     if isinstance(b, (int, np.integer)):
-        return [int(b) + 1]
+        # also as a numpy scalar (an element of np.arange(...) in a parameter grid)
+        return [int(b) + 1, np.int64(int(b) + 1)]
     if isinstance(b, float):
-        return [b / 2 + 0.25]
+        return [b / 2 + 0.25, np.float64(b / 2 + 0.25)]
     if isinstance(b, BaseEstimator):
         return [NaiveForecaster(strategy="drift"), Sentinel("est")]
     if b is None:
